@@ -576,6 +576,12 @@ class Ev:
                 return self.lift(f(a.v, b.v)) if not isinstance(f(a.v, b.v), float) else Py(f(a.v, b.v))
         num = lambda x: (Fraction(x.value()) if isinstance(x, BV) and x.is_const() else Fraction(str(x.v)) if isinstance(x, Py) and isinstance(x.v, (int, float)) and not isinstance(x.v, bool) else None)  # noqa: E731
         isfloat = lambda x: isinstance(x, Py) and isinstance(x.v, float)  # noqa: E731
+        # an integer (truncated affine value) times a power of two is a left shift of that integer
+        if isinstance(op, ast.Mult):
+            for x, y in ((a, b), (b, a)):
+                k = num(y)
+                if isinstance(x, Lin) and x.trunc and k is not None and k.denominator == 1 and k > 0 and (int(k) & (int(k) - 1)) == 0:
+                    return bv_shl(BV.src(self._lin_name(x), INT_WIDTH), int(k).bit_length() - 1)
         if isinstance(op, (ast.Add, ast.Sub, ast.Mult, ast.Div)):
             la = a if isinstance(a, Lin) else (Lin(a, Fraction(1), Fraction(0)) if (isinstance(a, Sym) and a.typ in ("float", "optfloat", "int", "optint")) else None)
             lb = b if isinstance(b, Lin) else (Lin(b, Fraction(1), Fraction(0)) if (isinstance(b, Sym) and b.typ in ("float", "optfloat", "int", "optint")) else None)
